@@ -1147,6 +1147,371 @@ Section Theorems2.
 
 End Theorems2.
 
+(* ================================================================== growth round: pointwise, total, negative space *)
+
+Lemma nth_error_map2 {V} (f : V -> V -> V) : forall a b i,
+  nth_error (map2 f a b) i
+  = match nth_error a i, nth_error b i with
+    | Some x, Some y => Some (f x y)
+    | _, _ => None
+    end.
+Proof.
+  induction a as [|x a IH]; intros [|y b] [|i]; cbn; try reflexivity.
+  - destruct (nth_error a i); reflexivity.
+  - apply IH.
+Qed.
+
+Lemma map2_length {V} (f : V -> V -> V) : forall a b,
+  List.length b = List.length a -> List.length (map2 f a b) = List.length a.
+Proof.
+  induction a as [|x a IH]; intros [|y b] H; cbn in *; try reflexivity; try discriminate.
+  rewrite IH by lia. reflexivity.
+Qed.
+
+(** a genuinely free term algebra (constructors are injective, so nothing is identified) *)
+Inductive term :=
+| Leaf (n : N)
+| App2 (m : str) (l r : term)
+| App1 (m : str) (x : term)
+| Ident (m : str) (ty : N).
+
+Section Theorems3.
+  Variable lower : str -> str.
+  Hypothesis Hlower : lower_ok lower.
+  Variable V : Type.
+  Variable op : str -> V -> V -> V.
+  Variable uop : str -> V -> V.
+  Variable ident : str -> N -> V.
+
+  Notation run_body := (run_body V op uop ident).
+  Notation run_fold := (run_fold V op uop ident).
+
+  (** clause 1, literally: "the value whose i-th field is lhs.i op rhs.i" *)
+  Theorem struct_binary_pointwise t attrs fs a b :
+    fs <> FUnit -> NoDup (members_of fs) ->
+    (expander_of t = XAddLike \/
+     (expander_of t = XMulLike /\ forward_on t attrs /\ fields_clean (std_method t) fs)) ->
+    List.length a = List.length (members_of fs) -> List.length b = List.length (members_of fs) ->
+    exists im r,
+      derive lower t (struct_input attrs fs) = Expanded im /\
+      run_body (ctx_of (struct_input attrs fs)) (im_body im) (CStruct, a) (Some (CStruct, b)) None
+      = Some (RVal (CStruct, r)) /\
+      List.length r = List.length a /\
+      forall i x y, nth_error a i = Some x -> nth_error b i = Some y ->
+                    nth_error r i = Some (op (std_method t) x y).
+  Proof.
+    intros Hu Hnd Hmode Ha Hb.
+    destruct (struct_binary lower Hlower V op uop ident t attrs fs a b Hu Hnd Hmode Ha Hb) as [im [He Hr]].
+    exists im, (map2 (op (std_method t)) a b). split; [exact He|]. split; [exact Hr|]. split.
+    - apply map2_length. congruence.
+    - intros i x y Hx Hy. rewrite nth_error_map2, Hx, Hy. reflexivity.
+  Qed.
+
+  (* ---------------------------------------------------------------- enums: every pair of values *)
+
+  (** [x] is a value of the enum: some declared variant, with that variant's number of fields *)
+  Definition enum_value (vs : list variant) (x : val V) : Prop :=
+    exists vr, In vr vs /\ fst x = CVariant (v_name vr) /\ List.length (snd x) = arity vr.
+
+  (** what the property says [x op y] is, as a function of the two values alone *)
+  Definition enum_binary_spec (m : str) (vs : list variant) (x y : val V) : option (res (val V)) :=
+    match fst x, fst y with
+    | CVariant v1, CVariant v2 =>
+        if str_eqb v1 v2 then
+          match find (fun v => str_eqb (v_name v) v1) vs with
+          | Some vr => Some (if is_unit (v_fields vr) then RErrV EBinUnit m
+                             else ROkV (CVariant v1, map2 (op m) (snd x) (snd y)))
+          | None => None
+          end
+        else Some (RErrV EBinMismatch m)
+    | _, _ => None
+    end.
+
+  Lemma same_name_same_variant vs vr1 vr2 :
+    NoDup (map v_name vs) -> In vr1 vs -> In vr2 vs -> v_name vr1 = v_name vr2 -> vr1 = vr2.
+  Proof.
+    intros Hnd H1 H2 E.
+    pose proof (find_variant vs vr1 Hnd H1) as F1. pose proof (find_variant vs vr2 Hnd H2) as F2.
+    rewrite E in F1. congruence.
+  Qed.
+
+  Theorem enum_total t attrs vs :
+    (expander_of t = XAddLike \/
+     (expander_of t = XMulLike /\ forward_on t attrs /\ variants_clean (std_method t) vs)) ->
+    wf_variants vs ->
+    exists im,
+      derive lower t (enum_input attrs vs) = Expanded im /\
+      forall x y, enum_value vs x -> enum_value vs y ->
+        run_body (ctx_of (enum_input attrs vs)) (im_body im) x (Some y) None
+        = enum_binary_spec (std_method t) vs x y /\
+        enum_binary_spec (std_method t) vs x y <> None.
+  Proof.
+    intros Hmode Hwf.
+    destruct (enum_binary lower Hlower V op uop ident t attrs vs Hmode Hwf) as [im [He [_ [Hsame Hdiff]]]].
+    exists im. split; [exact He|].
+    intros [cx a] [cy b] [vr1 [H1 [Ex La]]] [vr2 [H2 [Ey Lb]]]. cbn [fst snd] in *. subst cx cy.
+    unfold enum_binary_spec. cbn [fst snd].
+    destruct (str_eqb (v_name vr1) (v_name vr2)) eqn:E.
+    - apply str_eqb_eq in E. destruct Hwf as [Hnd Hw].
+      pose proof (same_name_same_variant vs vr1 vr2 Hnd H1 H2 E) as <-.
+      rewrite (find_variant vs vr1 Hnd H1). split; [|discriminate].
+      apply Hsame; assumption.
+    - split; [|discriminate]. apply Hdiff; try assumption.
+      intros E'. rewrite E', str_eqb_refl in E. discriminate.
+  Qed.
+
+  (* ---------------------------------------------------------------- Sum / Product of 0 and 1 elements *)
+
+  Corollary struct_sum_small (self_op : str -> list V -> list V -> list V) t attrs fs :
+    expander_of t = XSumLike -> no_attr (std_method t) attrs -> fields_clean (std_method t) fs ->
+    NoDup (members_of fs) ->
+    exists im,
+      derive lower t (struct_input attrs fs) = Expanded im /\
+      let zero := map (fun f => ident (std_method t) (f_ty f)) (field_list fs) in
+      run_fold self_op (ctx_of (struct_input attrs fs)) (im_body im) [] = Some (CStruct, zero) /\
+      forall x, run_fold self_op (ctx_of (struct_input attrs fs)) (im_body im) [(CStruct, x)]
+                = Some (CStruct, self_op (std_method (fold_op t)) zero x).
+  Proof.
+    intros Hx Hna Hc Hnd.
+    destruct (struct_sum lower Hlower V op uop ident self_op t attrs fs [] Hx Hna Hc Hnd) as [im [He H0]].
+    exists im. split; [exact He|]. split; [exact H0|].
+    intros x.
+    destruct (struct_sum lower Hlower V op uop ident self_op t attrs fs [(CStruct, x)] Hx Hna Hc Hnd)
+      as [im' [He' H1]].
+    rewrite He in He'. inversion He'; subst im'. exact H1.
+  Qed.
+
+  (* ---------------------------------------------------------------- no implementation outside the supported shapes *)
+
+  (** which declarations get an implementation at all; everything else is a diagnostic or a
+      macro panic (compile error), never a silently different impl *)
+  Definition supported_shape (t : trait) (inp : input) (im : impl) : Prop :=
+    match expander_of t, i_data inp with
+    | XAddLike, DStruct (FNamed _ | FUnnamed _) => im_output im = OutSelf
+    | XAddLike, DEnum _ => im_output im = OutResultBinary
+    | XNotLike, DStruct (FNamed _ | FUnnamed _) => im_output im = OutSelf
+    | XNotLike, DEnum vs => im_output im = (if has_unit_type vs then OutResultUnit else OutSelf)
+    | XAddAssignLike, DStruct (FNamed _ | FUnnamed _) => im_output im = OutNone
+    | XMulLike, DStruct (FNamed _ | FUnnamed _) => im_output im = OutSelf
+    | XMulLike, DStruct FUnit => im_scalar im = Some false          (* scalar form only *)
+    | XMulLike, DEnum _ => im_output im = OutResultBinary /\ im_scalar im = None   (* forwarded only *)
+    | XMulAssignLike, DStruct (FNamed _ | FUnnamed _) => im_output im = OutNone
+    | XMulAssignLike, DStruct FUnit => im_scalar im = Some false
+    | XSumLike, DStruct _ => im_output im = OutSelfKw
+    | _, _ => False
+    end.
+
+  Theorem expanded_only_if_supported t inp im :
+    derive lower t inp = Expanded im -> supported_shape t inp im.
+  Proof.
+    unfold derive, supported_shape. destruct (expander_of t) eqn:Hx.
+    - unfold add_like_expand. destruct (i_data inp) as [[l|l|]|vs|]; intros H; inversion H; reflexivity.
+    - unfold add_assign_like_expand. destruct (i_data inp) as [[l|l|]|vs|]; intros H; inversion H; reflexivity.
+    - unfold mul_like_expand, state_new.
+      destruct (i_data inp) as [fs|vs|] eqn:Hd; [| |discriminate].
+      + destruct (get_meta_info _ _ _) as [e|fw]; [discriminate|].
+        destruct (first_meta_error _ _ _); [discriminate|]. cbn [st_forward st_dtype st_fields].
+        destruct (match fw with Some b => b | None => false end).
+        * unfold add_like_expand. rewrite Hd. destruct fs as [l|l|]; intros H; inversion H; reflexivity.
+        * destruct fs as [l|l|]; intros H; inversion H; reflexivity.
+      + destruct (get_meta_info _ _ _) as [e|fw]; [discriminate|].
+        destruct (first_meta_error _ _ _); [discriminate|].
+        destruct (first_meta_error _ _ _); [discriminate|]. cbn [st_forward st_dtype].
+        destruct (match fw with Some b => b | None => false end); [|discriminate].
+        unfold add_like_expand. rewrite Hd. intros H; inversion H. split; reflexivity.
+    - unfold mul_assign_like_expand, state_new.
+      destruct (i_data inp) as [fs|vs|] eqn:Hd; [| |discriminate].
+      + destruct (get_meta_info _ _ _) as [e|fw]; [discriminate|].
+        destruct (first_meta_error _ _ _); [discriminate|]. cbn [st_forward st_dtype st_fields].
+        destruct (match fw with Some b => b | None => false end).
+        * unfold add_assign_like_expand. rewrite Hd. destruct fs as [l|l|]; intros H; inversion H; reflexivity.
+        * destruct fs as [l|l|]; intros H; inversion H; reflexivity.
+      + destruct (get_meta_info _ _ _) as [e|fw]; [discriminate|].
+        destruct (first_meta_error _ _ _); [discriminate|].
+        destruct (first_meta_error _ _ _); [discriminate|]. cbn [st_forward st_dtype].
+        destruct (match fw with Some b => b | None => false end); [|discriminate].
+        unfold add_assign_like_expand. rewrite Hd. discriminate.
+    - unfold not_like_expand. destruct (i_data inp) as [[l|l|]|vs|]; intros H; inversion H; reflexivity.
+    - unfold sum_like_expand, state_new.
+      destruct (i_data inp) as [fs|vs|] eqn:Hd; [| |discriminate].
+      + destruct (get_meta_info _ _ _) as [e|fw]; [discriminate|].
+        destruct (first_meta_error _ _ _); [discriminate|]. cbn [st_dtype st_fields].
+        destruct fs as [l|l|]; intros H; inversion H; reflexivity.
+      + destruct (get_meta_info _ _ _) as [e|fw]; [discriminate|].
+        destruct (first_meta_error _ _ _); [discriminate|].
+        destruct (first_meta_error _ _ _); [discriminate|]. discriminate.
+  Qed.
+
+End Theorems3.
+
+(** operand order is observable: over the free term algebra the derived result differs from the
+    operand-swapped one as soon as one pair of corresponding fields differs *)
+Theorem order_sensitive lower :
+  lower_ok lower ->
+  forall t attrs fs (a b : list term),
+    fs <> FUnit -> NoDup (members_of fs) ->
+    (expander_of t = XAddLike \/
+     (expander_of t = XMulLike /\ forward_on t attrs /\ fields_clean (std_method t) fs)) ->
+    List.length a = List.length (members_of fs) -> List.length b = List.length (members_of fs) ->
+    (exists i x y, nth_error a i = Some x /\ nth_error b i = Some y /\ x <> y) ->
+    exists im r r',
+      derive lower t (struct_input attrs fs) = Expanded im /\
+      run_body term App2 App1 Ident (ctx_of (struct_input attrs fs)) (im_body im) (CStruct, a) (Some (CStruct, b)) None
+      = Some (RVal (CStruct, r)) /\
+      run_body term App2 App1 Ident (ctx_of (struct_input attrs fs)) (im_body im) (CStruct, b) (Some (CStruct, a)) None
+      = Some (RVal (CStruct, r')) /\
+      r <> r'.
+Proof.
+  intros Hl t attrs fs a b Hu Hnd Hmode Ha Hb [i [x [y [Hx [Hy Hne]]]]].
+  destruct (struct_binary_pointwise lower Hl term App2 App1 Ident t attrs fs a b Hu Hnd Hmode Ha Hb)
+    as [im [r [He [Hr [_ Hp]]]]].
+  destruct (struct_binary_pointwise lower Hl term App2 App1 Ident t attrs fs b a Hu Hnd Hmode Hb Ha)
+    as [im' [r' [He' [Hr' [_ Hp']]]]].
+  rewrite He in He'. inversion He'; subst im'.
+  exists im, r, r'. split; [exact He|]. split; [exact Hr|]. split; [exact Hr'|].
+  intros E. specialize (Hp i x y Hx Hy). specialize (Hp' i y x Hy Hx). rewrite E in Hp.
+  rewrite Hp' in Hp. inversion Hp. congruence.
+Qed.
+
+(* ================================================================== the impl header *)
+
+Lemma dedup_in x l : In x (dedup l) <-> In x l.
+Proof.
+  induction l as [|y l IH]; cbn; [tauto|]. rewrite filter_In, IH.
+  destruct (N.eqb_spec y x); cbn; intuition congruence.
+Qed.
+
+Lemma dedup_nodup l : NoDup (dedup l).
+Proof.
+  induction l as [|y l IH]; cbn; constructor.
+  - rewrite filter_In. rewrite N.eqb_refl. cbn. intuition discriminate.
+  - apply NoDup_filter. exact IH.
+Qed.
+
+Section HeaderTheorems.
+  Variable lower : str -> str.
+  Hypothesis Hlower : lower_ok lower.
+
+  (** the shape of a scalar expansion (needed to read the header off it) *)
+  Lemma scalar_impl_shape t attrs fs :
+    (expander_of t = XMulLike \/ expander_of t = XMulAssignLike) ->
+    forward_off t attrs -> fields_clean (std_method t) fs ->
+    exists im, derive lower t (struct_input attrs fs) = Expanded im /\
+               im_scalar im = Some (Nat.ltb 1 (List.length (field_list fs))) /\
+               im_trait im = trait_name t.
+  Proof.
+    intros [Hx|Hx] Hoff Hc; unfold derive; rewrite Hx.
+    - destruct (forward_off_state t attrs fs (trait_name t) params_mul_like eq_refl Hoff Hc) as [fw [Hst Hfw]].
+      unfold mul_like_expand. rewrite (name_plain lower t Hlower) by auto. rewrite Hst, Hfw.
+      destruct (st_dtype (st_of fw fs)) eqn:Hd; [| |exfalso; eapply st_of_dtype; eauto];
+        (eexists; split; [reflexivity|split; reflexivity]).
+    - destruct (forward_off_state t attrs fs (trait_name t) params_mul_assign_like eq_refl Hoff Hc) as [fw [Hst Hfw]].
+      unfold mul_assign_like_expand. rewrite (name_mul_assign lower t Hlower) by auto. rewrite Hst, Hfw.
+      destruct (st_dtype (st_of fw fs)) eqn:Hd; [| |exfalso; eapply st_of_dtype; eauto];
+        (eexists; split; [reflexivity|split; reflexivity]).
+  Qed.
+
+  Definition scalar_pred (t : trait) (ty : N) : wpred :=
+    match expander_of t with
+    | XMulAssignLike => WScalar ty (trait_name t)
+    | _ => WScalarOut ty (trait_name t)
+    end.
+
+  (** scalar Mul-like / MulAssign-like derives: [__RhsT] comes after the lifetimes and type
+      parameters and before the const parameters, is [Copy] iff there is more than one field, no
+      declared parameter is changed; the where-clause gets exactly one predicate per distinct
+      field type - every field's type is covered, none twice - in front of the declaration's own *)
+  Theorem scalar_header t attrs fs g :
+    (expander_of t = XMulLike \/ expander_of t = XMulAssignLike) ->
+    forward_off t attrs -> fields_clean (std_method t) fs ->
+    exists h new,
+      derive_header lower t g (struct_input attrs fs) = Expanded h /\
+      h_params h = filter is_lifetime (map orig_param (g_params g))
+                   ++ filter is_type_param (map orig_param (g_params g))
+                   ++ [ORhs (Nat.ltb 1 (List.length (field_list fs)))]
+                   ++ filter is_const_param (map orig_param (g_params g)) /\
+      h_where h = new ++ map WOrig (g_where g) /\
+      NoDup new /\
+      (forall f, In f (field_list fs) -> In (scalar_pred t (f_ty f)) new) /\
+      (forall w, In w new -> exists f, In f (field_list fs) /\ w = scalar_pred t (f_ty f)).
+  Proof.
+    intros Hx Hoff Hc.
+    destruct (scalar_impl_shape t attrs fs Hx Hoff Hc) as [im [He [Hs Ht]]].
+    unfold derive_header. rewrite He. cbn [omap].
+    exists (header_of t g (struct_input attrs fs) im),
+           (map (scalar_pred t) (dedup (map f_ty (field_list fs)))).
+    split; [reflexivity|].
+    assert (Hh : header_of t g (struct_input attrs fs) im
+                 = add_where_clauses_for_new_ident g (List.length (field_list fs))
+                     (map (scalar_pred t) (dedup (map f_ty (field_list fs))))).
+    { unfold header_of, scalar_pred. cbn [struct_input i_data]. rewrite Hs, Ht, map_length.
+      destruct Hx as [Hx|Hx]; rewrite Hx; reflexivity. }
+    rewrite Hh. split; [reflexivity|]. split; [reflexivity|]. split; [|split].
+    - apply NoDup_map_inj; [|apply dedup_nodup].
+      intros x y. unfold scalar_pred. destruct (expander_of t); congruence.
+    - intros f Hf. apply in_map. apply (proj2 (dedup_in _ _)). apply in_map. exact Hf.
+    - intros w Hw. apply in_map_iff in Hw as [ty [<- Hty]]. apply (proj1 (dedup_in _ _)) in Hty.
+      apply in_map_iff in Hty as [f [<- Hf]]. exists f. split; [exact Hf|reflexivity].
+  Qed.
+
+  (** field-wise derives (Add-like, Not-like, forwarded Mul-like; AddAssign-like, forwarded
+      MulAssign-like): nothing but one more bound on every type parameter *)
+  Theorem fieldwise_header t g inp im :
+    derive lower t inp = Expanded im ->
+    (expander_of t = XAddLike \/ expander_of t = XNotLike \/ (expander_of t = XMulLike /\ im_scalar im = None)) ->
+    derive_header lower t g inp
+    = Expanded {| h_params := map (fun p => push_bound (fun n => BOpOutput (im_trait im) n) (orig_param p)) (g_params g);
+                  h_where := map WOrig (g_where g) |}.
+  Proof.
+    intros He Hx. unfold derive_header. rewrite He. cbn [omap]. f_equal.
+    unfold header_of, add_extra_type_param_bound_op_output. rewrite map_map.
+    destruct Hx as [Hx|[Hx|[Hx Hs]]]; rewrite Hx; [| |rewrite Hs]; try reflexivity;
+      destruct (im_scalar im); reflexivity.
+  Qed.
+
+  Theorem assign_header t g inp im :
+    derive lower t inp = Expanded im ->
+    (expander_of t = XAddAssignLike \/ (expander_of t = XMulAssignLike /\ im_scalar im = None)) ->
+    derive_header lower t g inp
+    = Expanded {| h_params := map (fun p => push_bound (fun _ => BOp (im_trait im)) (orig_param p)) (g_params g);
+                  h_where := map WOrig (g_where g) |}.
+  Proof.
+    intros He Hx. unfold derive_header. rewrite He. cbn [omap]. f_equal.
+    unfold header_of, add_extra_ty_param_bound. rewrite map_map.
+    destruct Hx as [Hx|[Hx Hs]]; rewrite Hx; [|rewrite Hs]; try reflexivity;
+      destruct (im_scalar im); reflexivity.
+  Qed.
+
+  (** Sum / Product: untouched without type parameters; otherwise every type parameter must
+      implement the iterator trait and the type itself the operator the fold uses *)
+  Theorem sum_header t attrs fs g :
+    expander_of t = XSumLike -> no_attr (std_method t) attrs -> fields_clean (std_method t) fs ->
+    exists h,
+      derive_header lower t g (struct_input attrs fs) = Expanded h /\
+      (has_type_param g = false ->
+         h = {| h_params := map orig_param (g_params g); h_where := map WOrig (g_where g) |}) /\
+      (has_type_param g = true ->
+         h = {| h_params := map (fun p => push_bound (fun _ => BWith (trait_name t)) (orig_param p)) (g_params g);
+                h_where := WSelfOp (trait_name (fold_op t)) :: map WOrig (g_where g) |}).
+  Proof.
+    intros Hx Hna Hc.
+    assert (He : exists im, derive lower t (struct_input attrs fs) = Expanded im /\ im_trait im = trait_name t).
+    { unfold derive. rewrite Hx. unfold sum_like_expand.
+      rewrite (name_plain lower t Hlower) by auto.
+      rewrite (state_new_struct _ _ params_none attrs fs None).
+      2:{ unfold get_meta_info. unfold no_attr in Hna. rewrite Hna. reflexivity. }
+      2:{ exact Hc. }
+      destruct (st_dtype (st_of None fs)) eqn:Hd; [| |exfalso; eapply st_of_dtype; eauto];
+        (eexists; split; reflexivity). }
+    destruct He as [im [He Ht]]. unfold derive_header. rewrite He. cbn [omap].
+    eexists. split; [reflexivity|]. unfold header_of. rewrite Hx, Ht.
+    split; intros Hg; rewrite Hg; [reflexivity|].
+    unfold add_extra_ty_param_bound, add_extra_where_clauses. rewrite map_map. cbn [app].
+    destruct t; try discriminate; vm_compute (str_eqb _ _); reflexivity.
+  Qed.
+
+End HeaderTheorems.
+
 (* ================================================================== example declarations *)
 
 Definition ex_enum : list variant :=
@@ -1226,3 +1591,74 @@ Example ex_enum_mul_forward :
   free_run TMul (enum_input [] ex_enum) (CVariant (lit "A"), [lit "a0"]) None (Some (lit "s7"))
     = lit "PANICKED cannot derive(Mul) for enum".
 Proof. vm_compute. repeat split. Qed.
+
+(* ================================================================== non-vacuity of the growth-round theorems *)
+
+(** zero-field variants [Z()] and [W{}] are not unit variants: same-variant pairs give [Ok] *)
+Definition ex_enum0 : list variant :=
+  [ {| v_name := lit "Z"; v_fields := FUnnamed []; v_attrs := [] |};
+    {| v_name := lit "W"; v_fields := FNamed []; v_attrs := [] |};
+    {| v_name := lit "U"; v_fields := FUnit; v_attrs := [] |};
+    {| v_name := lit "P"; v_fields := FNamed [(lit "x", ex_field 0); (lit "y", ex_field 1)]; v_attrs := [] |} ].
+
+Example ex_enum0_wf : wf_variants ex_enum0.
+Proof.
+  split; cbn.
+  - repeat constructor; cbn; intuition discriminate.
+  - repeat constructor; cbn; intuition discriminate.
+Qed.
+
+Example ex_enum0_values :
+  enum_value str ex_enum0 (CVariant (lit "Z"), []) /\
+  enum_value str ex_enum0 (CVariant (lit "P"), [lit "a0"; lit "a1"]).
+Proof.
+  split.
+  - exists {| v_name := lit "Z"; v_fields := FUnnamed []; v_attrs := [] |}. cbn. intuition.
+  - exists {| v_name := lit "P"; v_fields := FNamed [(lit "x", ex_field 0); (lit "y", ex_field 1)]; v_attrs := [] |}.
+    cbn. intuition.
+Qed.
+
+Example ex_enum0_runs :
+  let inp := enum_input [] ex_enum0 in
+  free_run TBitXor inp (CVariant (lit "Z"), []) (Some (CVariant (lit "Z"), [])) None = lit "Ok Z:" /\
+  free_run TBitXor inp (CVariant (lit "W"), []) (Some (CVariant (lit "W"), [])) None = lit "Ok W:" /\
+  free_run TBitXor inp (CVariant (lit "U"), []) (Some (CVariant (lit "U"), [])) None
+    = lit "Err Unit Cannot bitxor() unit variants" /\
+  free_run TBitXor inp (CVariant (lit "Z"), []) (Some (CVariant (lit "W"), [])) None
+    = lit "Err Mismatch Trying to bitxor() mismatched enum variants" /\
+  free_run TBitXor inp (CVariant (lit "P"), [lit "a0"; lit "a1"]) (Some (CVariant (lit "P"), [lit "b0"; lit "b1"])) None
+    = lit "Ok P:(bitxor a0 b0)|(bitxor a1 b1)" /\
+  free_run TNot inp (CVariant (lit "Z"), []) None None = lit "Ok Z:" /\
+  free_run TNot inp (CVariant (lit "U"), []) None None = lit "Err UnitOnly Cannot not() unit variants".
+Proof. vm_compute. repeat split. Qed.
+
+(** the hypothesis of [order_sensitive] *)
+Example ex_order_hypothesis :
+  exists i x y, nth_error [Leaf 1; Leaf 2] i = Some x /\ nth_error [Leaf 1; Leaf 3] i = Some y /\ x <> y.
+Proof. exists 1%nat, (Leaf 2), (Leaf 3). repeat split; discriminate. Qed.
+
+(** a header with every kind of parameter: [impl<'a, A: Clone + Mul.., B, __RhsT: Copy, const N: usize>] *)
+Definition ex_generics : generics :=
+  {| g_params := [GLifetime (lit "'a"); GType (lit "A") [lit "Clone"]; GConst (lit "const N: usize"); GType (lit "B") []];
+     g_where := [lit "A: Default"] |}.
+
+Example ex_scalar_header :
+  derive_header ascii_lower TShr ex_generics (struct_input [] (FUnnamed [ex_field 5; ex_field 7; ex_field 5]))
+  = Expanded {| h_params := [OLifetime (lit "'a"); OType (lit "A") [BOrig (lit "Clone")]; OType (lit "B") [];
+                             ORhs true; OConst (lit "const N: usize")];
+                h_where := [WScalarOut 5 (lit "Shr"); WScalarOut 7 (lit "Shr"); WOrig (lit "A: Default")] |}.
+Proof. vm_compute. reflexivity. Qed.
+
+Example ex_fieldwise_header :
+  derive_header ascii_lower TSub ex_generics (struct_input [] ex_named)
+  = Expanded {| h_params := [OLifetime (lit "'a"); OType (lit "A") [BOrig (lit "Clone"); BOpOutput (lit "Sub") (lit "A")];
+                             OConst (lit "const N: usize"); OType (lit "B") [BOpOutput (lit "Sub") (lit "B")]];
+                h_where := [WOrig (lit "A: Default")] |}.
+Proof. vm_compute. reflexivity. Qed.
+
+Example ex_sum_header :
+  derive_header ascii_lower TProduct ex_generics (struct_input [] ex_named)
+  = Expanded {| h_params := [OLifetime (lit "'a"); OType (lit "A") [BOrig (lit "Clone"); BWith (lit "Product")];
+                             OConst (lit "const N: usize"); OType (lit "B") [BWith (lit "Product")]];
+                h_where := [WSelfOp (lit "Mul"); WOrig (lit "A: Default")] |}.
+Proof. vm_compute. reflexivity. Qed.
